@@ -357,4 +357,283 @@ theorem noRefGo_finished (fx : Fixes) (query : Seq) (quals : Option (List Nat)) 
               simp [h3, h4, h5, h6, queueLoop, hv', mapM', hh, bind, Except.bind, pure, Except.pure, popResolved, hp, hr,
                 noRefGo_empty fx query quals rest hrest]
 
+/-! ### list helpers -/
+
+theorem flatMap_congr' {α β} (l : List α) (f g : α → List β) (h : ∀ x ∈ l, f x = g x) : l.flatMap f = l.flatMap g := by
+  induction l with
+  | nil => rfl
+  | cons x xs ih =>
+    simp only [List.flatMap_cons]
+    rw [h x (by simp), ih (fun y hy => h y (by simp [hy]))]
+
+theorem flatMap_map' {α β γ} (l : List α) (g : α → β) (F : β → List γ) :
+    (l.map g).flatMap F = l.flatMap (fun x => F (g x)) := by
+  induction l with
+  | nil => rfl
+  | cons x xs ih => simp only [List.map_cons, List.flatMap_cons, ih]
+
+theorem flatMap_flatMap' {α β γ} (l : List α) (q : α → List β) (F : β → List γ) :
+    (l.flatMap q).flatMap F = l.flatMap (fun x => (q x).flatMap F) := by
+  induction l with
+  | nil => rfl
+  | cons x xs ih => simp only [List.flatMap_cons, List.flatMap_append, ih]
+
+theorem flatMap_dropWhile' {α β} (p : α → Bool) (f : α → List β) (l : List α) (h : ∀ x ∈ l, p x = true → f x = []) :
+    l.flatMap f = (l.dropWhile p).flatMap f := by
+  induction l with
+  | nil => rfl
+  | cons x xs ih =>
+    cases hp : p x with
+    | true =>
+      rw [List.dropWhile_cons_of_pos hp, List.flatMap_cons, h x (by simp) hp, List.nil_append]
+      exact ih (fun y hy => h y (by simp [hy]))
+    | false => rw [List.dropWhile_cons_of_neg (by simp [hp])]
+
+/-- `mapM'` succeeds only if every element does -/
+theorem mapM'_ok_elem {α β} (f : α → Except Err β) :
+    ∀ (l : List α) (ys : List β), mapM' f l = .ok ys → ∀ x ∈ l, ∃ y, f x = .ok y := by
+  intro l
+  induction l with
+  | nil => intro _ _ x hx; cases hx
+  | cons a as ih =>
+    intro ys h x hx
+    cases hfa : f a with
+    | error err => simp [mapM', hfa, bind, Except.bind] at h
+    | ok y =>
+      cases hr : mapM' f as with
+      | error err => simp [mapM', hfa, hr, bind, Except.bind] at h
+      | ok zs =>
+        rcases List.mem_cons.1 hx with rfl | hx
+        · exact ⟨y, hfa⟩
+        · exact ih zs hr x hx
+
+theorem dw_self (vps : List VP) (rp : Nat) (h : ∀ p ∈ vps, rp ≤ p.2.pos) :
+    vps.dropWhile (fun p => decide (p.2.pos < rp)) = vps := by
+  cases vps with
+  | nil => rfl
+  | cons x xs =>
+    have := h x (by simp)
+    rw [List.dropWhile_cons_of_neg]
+    simp only [decide_eq_true_eq]; omega
+
+theorem dw_drop (vp : VP) (rp : Nat) (h : vp.2.pos < rp) :
+    [vp].dropWhile (fun p => decide (p.2.pos < rp)) = [] := by
+  simp [List.dropWhile, h]
+
+theorem noRefGo_dw (fx : Fixes) (query : Seq) (quals : Option (List Nat)) (anch : Bool) (rp qp : Nat) (vps : List VP)
+    (Q : List Entry) (C : Cigar) :
+    noRefGo fx query quals anch rp qp vps Q C =
+      noRefGo fx query quals anch rp qp (vps.dropWhile (fun p => decide (p.2.pos < rp))) Q C := by
+  cases C with
+  | nil => simp [noRefGo]
+  | cons x rest =>
+    obtain ⟨op, len⟩ := x
+    simp only [noRefGo, dropWhile_idem]
+
+/-! ### one step of the walk -/
+
+def nextRp (op len rp : Nat) : Nat := if isMatch op || op == 2 then rp + len else rp
+def nextQp (op len qp : Nat) : Nat := if isMatch op || op == 1 then qp + len else qp
+def refEndOf (fx : Fixes) (op len rp : Nat) : Nat := if fx.f16 && op == 1 then rp + 1 else rp + len
+def skOf (fx : Fixes) (anch : Bool) (op : Nat) : Bool := fx.f15 && !anch && isMatch op
+
+/-- the part of one M/I/D step after the queueing -/
+def stepOut (fx : Fixes) (query : Seq) (quals : Option (List Nat)) (op len rp qp : Nat) (rest : Cigar)
+    (Q1 : List Entry) (R : List VP) : List (Nat × Nat × Nat) × Option Err :=
+  match mapM' (handleEntry fx.f13 op query quals qp len) Q1 with
+  | .error e => ([], some e)
+  | .ok Q2 =>
+    ((popResolved Q2).1 ++
+      (noRefGo fx query quals true (nextRp op len rp) (nextQp op len qp) R (popResolved Q2).2 rest).1,
+     (noRefGo fx query quals true (nextRp op len rp) (nextQp op len qp) R (popResolved Q2).2 rest).2)
+
+theorem noRefGo_step (fx : Fixes) (query : Seq) (quals : Option (List Nat)) (anch : Bool) (rp qp op len : Nat)
+    (rest : Cigar) (vps : List VP) (Q : List Entry) (h3 : (op == 3) = false) (h4 : (op == 4) = false)
+    (h56 : (op == 5 || op == 6) = false) (hv : (isMatch op || op == 1 || op == 2) = true) :
+    noRefGo fx query quals anch rp qp vps Q ((op, len) :: rest) =
+      stepOut fx query quals op len rp qp rest
+        (Q ++ (queueLoop (skOf fx anch op) op rp qp (refEndOf fx op len rp)
+          (vps.dropWhile (fun p => decide (p.2.pos < rp)))).1)
+        (queueLoop (skOf fx anch op) op rp qp (refEndOf fx op len rp)
+          (vps.dropWhile (fun p => decide (p.2.pos < rp)))).2 := by
+  simp only [noRefGo, h3, h4, h56, hv, Bool.false_eq_true, if_false, Bool.not_true, stepOut, skOf, refEndOf, nextRp,
+    nextQp]
+  split <;> (rename_i heq; rw [heq])
+
+theorem noRefGo_skipop (fx : Fixes) (query : Seq) (quals : Option (List Nat)) (anch : Bool) (rp qp op len : Nat)
+    (rest : Cigar) (h : op = 3 ∨ op = 4 ∨ op = 5 ∨ op = 6) :
+    ∃ a' rp' qp', ∀ vps Q, noRefGo fx query quals anch rp qp vps Q ((op, len) :: rest) =
+      noRefGo fx query quals a' rp' qp' (vps.dropWhile (fun p => decide (p.2.pos < rp))) Q rest := by
+  rcases h with rfl | rfl | rfl | rfl
+  · exact ⟨false, rp + len, qp, fun vps Q => by simp [noRefGo]⟩
+  · exact ⟨anch, rp, qp + len, fun vps Q => by simp [noRefGo]⟩
+  · exact ⟨anch, rp, qp, fun vps Q => by simp [noRefGo]⟩
+  · exact ⟨anch, rp, qp, fun vps Q => by simp [noRefGo]⟩
+
+def hStep (fx : Fixes) (query : Seq) (quals : Option (List Nat)) (op len qp : Nat) (e : Entry) : Entry :=
+  match handleEntry fx.f13 op query quals qp len e with
+  | .ok e' => e'
+  | .error _ => e
+
+theorem stepOut_single_ok (fx : Fixes) (query : Seq) (quals : Option (List Nat)) (op len rp qp : Nat) (rest : Cigar)
+    (hrest : ∀ p ∈ rest, p.1 ≤ 8) (e e' : Entry) (hwf : EntryWF e)
+    (he : handleEntry fx.f13 op query quals qp len e = .ok e') :
+    stepOut fx query quals op len rp qp rest [e] [] =
+      noRefGo fx query quals true (nextRp op len rp) (nextQp op len qp) [] [e'] rest := by
+  have hwf' := handleEntry_WF _ _ _ _ _ _ _ _ hwf he
+  cases hp : (pendingIdx e'.alleles).isEmpty with
+  | false => simp [stepOut, mapM', he, bind, Except.bind, pure, Except.pure, popResolved, hp]
+  | true =>
+    rw [noRefGo_finished fx query quals rest hrest e' hwf' hp]
+    cases hr : (resolvedIdx e'.alleles).isEmpty <;>
+      simp [stepOut, mapM', he, bind, Except.bind, pure, Except.pure, popResolved, hp, hr,
+        noRefGo_empty fx query quals rest hrest]
+
+theorem stepOut_single_err (fx : Fixes) (query : Seq) (quals : Option (List Nat)) (op len rp qp : Nat) (rest : Cigar)
+    (e : Entry) (err : Err) (he : handleEntry fx.f13 op query quals qp len e = .error err) :
+    stepOut fx query quals op len rp qp rest [e] [] = ([], some err) := by
+  simp [stepOut, mapM', he, bind, Except.bind]
+
+theorem ok_of_single (fx : Fixes) (query : Seq) (quals : Option (List Nat)) (op len rp qp : Nat) (rest : Cigar)
+    (hrest : ∀ p ∈ rest, p.1 ≤ 8) (e : Entry) (hwf : EntryWF e)
+    (h : (stepOut fx query quals op len rp qp rest [e] []).2 = none) :
+    handleEntry fx.f13 op query quals qp len e = .ok (hStep fx query quals op len qp e) ∧
+    stepOut fx query quals op len rp qp rest [e] [] =
+      noRefGo fx query quals true (nextRp op len rp) (nextQp op len qp) [] [hStep fx query quals op len qp e] rest ∧
+    EntryWF (hStep fx query quals op len qp e) := by
+  cases hh : handleEntry fx.f13 op query quals qp len e with
+  | error err =>
+    rw [stepOut_single_err fx query quals op len rp qp rest e err hh] at h
+    simp at h
+  | ok e' =>
+    have hg : hStep fx query quals op len qp e = e' := by simp [hStep, hh]
+    rw [hg]
+    exact ⟨rfl, stepOut_single_ok fx query quals op len rp qp rest hrest e e' hwf hh,
+      handleEntry_WF _ _ _ _ _ _ _ _ hwf hh⟩
+
+/-- the pop loop only removes finished entries, whose single walks yield exactly what the pop loop yields -/
+theorem popResolved_flat (F : Entry → List (Nat × Nat × Nat))
+    (hF : ∀ e, EntryWF e → (pendingIdx e.alleles).isEmpty = true →
+      F e = if !(resolvedIdx e.alleles).isEmpty then (yieldOf e).toList else []) :
+    ∀ (L : List Entry), (∀ e ∈ L, EntryWF e) →
+      (popResolved L).1 ++ (popResolved L).2.flatMap F = L.flatMap F ∧ ∀ e ∈ (popResolved L).2, e ∈ L := by
+  intro L
+  induction L with
+  | nil => intro _; simp [popResolved]
+  | cons e es ih =>
+    intro hL
+    obtain ⟨ih1, ih2⟩ := ih (fun x hx => hL x (by simp [hx]))
+    cases hp : (pendingIdx e.alleles).isEmpty with
+    | false => simp [popResolved, hp]
+    | true =>
+      have hFe := hF e (hL e (by simp)) hp
+      cases hr : (resolvedIdx e.alleles).isEmpty with
+      | false =>
+        simp only [hr, Bool.not_false, if_true] at hFe
+        refine ⟨?_, ?_⟩
+        · simp only [popResolved, hp, hr, Bool.not_false, Bool.and_self, if_true, List.flatMap_cons, hFe,
+            List.append_assoc, ih1]
+        · intro x hx
+          simp only [popResolved, hp, hr, Bool.not_false, Bool.and_self, if_true] at hx
+          exact List.mem_cons_of_mem _ (ih2 x hx)
+      | true =>
+        simp only [hr, Bool.not_true, Bool.false_eq_true, if_false] at hFe
+        refine ⟨?_, ?_⟩
+        · simp only [popResolved, hp, hr, Bool.not_true, Bool.false_and, Bool.false_eq_true, if_false,
+            List.flatMap_cons, hFe, List.nil_append, ih1]
+        · intro x hx
+          simp only [popResolved, hp, hr, Bool.not_true, Bool.false_and, Bool.false_eq_true, if_false] at hx
+          exact List.mem_cons_of_mem _ (ih2 x hx)
+
+/-! ### the queueing loop works variant by variant -/
+
+theorem queueLoop_far (sk : Bool) (op rp qp refEnd : Nat) (vp : VP) (h : vp.2.pos ≥ refEnd) :
+    queueLoop sk op rp qp refEnd [vp] = ([], [vp]) := by
+  obtain ⟨id, v⟩ := vp
+  dsimp only at h
+  simp only [queueLoop, h, if_true]
+
+theorem queueLoop_single (sk : Bool) (op rp qp refEnd : Nat) (vp : VP) :
+    queueLoop sk op rp qp refEnd [vp] = ([], [vp]) ∨
+    ((queueLoop sk op rp qp refEnd [vp]).2 = [] ∧
+      ((queueLoop sk op rp qp refEnd [vp]).1 = [] ∨
+        ∃ e, (queueLoop sk op rp qp refEnd [vp]).1 = [e] ∧ EntryWF e)) := by
+  obtain ⟨id, v⟩ := vp
+  by_cases h1 : v.pos ≥ refEnd
+  · left; simp only [queueLoop, h1, if_true]
+  · by_cases h2 : (op == 1) = true ∧ v.ref.length > 0
+    · left; simp only [queueLoop, h1, if_false, if_pos h2]
+    · by_cases h3 : (op == 2) = true ∧ (v.ref.length == 0) = true
+      · right; simp only [queueLoop, h1, if_false, if_neg h2, if_pos h3]; simp
+      · by_cases h4 : sk = true ∧ (v.ref.length == 0) = true ∧ (v.pos == rp) = true
+        · right; simp only [queueLoop, h1, if_false, if_neg h2, if_neg h3, if_pos h4]; simp
+        · right
+          simp only [queueLoop, h1, if_false, if_neg h2, if_neg h3, if_neg h4]
+          exact ⟨rfl, Or.inr ⟨_, rfl, buildVarProgress_WF _ _ _⟩⟩
+
+theorem queueLoop_cons_pass (sk : Bool) (op rp qp refEnd id : Nat) (v : Variant) (rest : List VP)
+    (h1 : ¬ v.pos ≥ refEnd) (h2 : ¬ ((op == 1) = true ∧ v.ref.length > 0)) :
+    queueLoop sk op rp qp refEnd ((id, v) :: rest) =
+      ((queueLoop sk op rp qp refEnd [(id, v)]).1 ++ (queueLoop sk op rp qp refEnd rest).1,
+        (queueLoop sk op rp qp refEnd rest).2) ∧
+    (queueLoop sk op rp qp refEnd [(id, v)]).2 = [] := by
+  by_cases h3 : (op == 2) = true ∧ (v.ref.length == 0) = true
+  · simp only [queueLoop, h1, if_false, if_neg h2, if_pos h3]; simp
+  · by_cases h4 : sk = true ∧ (v.ref.length == 0) = true ∧ (v.pos == rp) = true
+    · simp only [queueLoop, h1, if_false, if_neg h2, if_neg h3, if_pos h4]; simp
+    · simp only [queueLoop, h1, if_false, if_neg h2, if_neg h3, if_neg h4]; simp
+
+theorem queueLoop_split (sk : Bool) (op rp qp refEnd : Nat) (hend : op = 1 → refEnd ≤ rp + 1) (vps : List VP)
+    (hs : vps.Pairwise (fun a b => a.2.pos < b.2.pos)) (hge : ∀ p ∈ vps, rp ≤ p.2.pos) :
+    ∃ A B, vps = A ++ B ∧
+      (queueLoop sk op rp qp refEnd vps).1 = A.flatMap (fun vp => (queueLoop sk op rp qp refEnd [vp]).1) ∧
+      (queueLoop sk op rp qp refEnd vps).2 = B ∧
+      (∀ vp ∈ A, (queueLoop sk op rp qp refEnd [vp]).2 = []) ∧
+      (∀ vp ∈ B, queueLoop sk op rp qp refEnd [vp] = ([], [vp])) := by
+  induction vps with
+  | nil => exact ⟨[], [], rfl, by simp [queueLoop], by simp [queueLoop], by simp, by simp⟩
+  | cons x rest ih =>
+    obtain ⟨id, v⟩ := x
+    have hs' := List.pairwise_cons.1 hs
+    have hrp : rp ≤ v.pos := hge (id, v) (by simp)
+    by_cases h1 : v.pos ≥ refEnd
+    · refine ⟨[], (id, v) :: rest, rfl, by simp only [queueLoop, h1, if_true]; rfl,
+        by simp only [queueLoop, h1, if_true], by simp, ?_⟩
+      intro vp hvp
+      apply queueLoop_far
+      rcases List.mem_cons.1 hvp with rfl | hvp
+      · exact h1
+      · have := hs'.1 vp hvp
+        dsimp only at this; omega
+    · by_cases h2 : (op == 1) = true ∧ v.ref.length > 0
+      · refine ⟨[], (id, v) :: rest, rfl, by simp only [queueLoop, h1, if_false, if_pos h2]; rfl,
+          by simp only [queueLoop, h1, if_false, if_pos h2], by simp, ?_⟩
+        intro vp hvp
+        rcases List.mem_cons.1 hvp with rfl | hvp
+        · simp only [queueLoop, h1, if_false, if_pos h2]
+        · apply queueLoop_far
+          have h5 := hs'.1 vp hvp
+          have h6 := hend (by simpa using h2.1)
+          dsimp only at h5; omega
+      · obtain ⟨A, B, hAB, hq1, hq2, hA, hB⟩ := ih hs'.2 (fun p hp => hge p (by simp [hp]))
+        obtain ⟨hc, hc2⟩ := queueLoop_cons_pass sk op rp qp refEnd id v rest h1 h2
+        refine ⟨(id, v) :: A, B, by simp [hAB], ?_, ?_, ?_, hB⟩
+        · rw [hc, List.flatMap_cons, hq1]
+        · rw [hc, hq2]
+        · intro vp hvp
+          rcases List.mem_cons.1 hvp with rfl | hvp
+          · exact hc2
+          · exact hA vp hvp
+
+/-! ### independence -/
+
+def Indep (fx : Fixes) (query : Seq) (quals : Option (List Nat)) (C : Cigar) : Prop :=
+  ∀ (anch : Bool) (rp qp : Nat) (vps : List VP) (Q : List Entry),
+    vps.Pairwise (fun a b => a.2.pos < b.2.pos) → (∀ e ∈ Q, EntryWF e) →
+    (∀ e ∈ Q, (noRefGo fx query quals anch rp qp [] [e] C).2 = none) →
+    (∀ vp ∈ vps, (noRefGo fx query quals anch rp qp [vp] [] C).2 = none) →
+    noRefGo fx query quals anch rp qp vps Q C =
+      (Q.flatMap (fun e => (noRefGo fx query quals anch rp qp [] [e] C).1) ++
+       vps.flatMap (fun vp => (noRefGo fx query quals anch rp qp [vp] [] C).1), none)
+
 end WhVerif.C06
